@@ -620,7 +620,8 @@ def run(ctx):
     for f in spec:
         groups.setdefault(spec_key(f), []).append(f)
     for key, fs in sorted(groups.items()):
-        f = min(fs, key=lambda x: (x['call'], len(desc_tag(x['desc']))))
+        # representative: an ACCEPTED call that should have been rejected first, then the shortest history
+        f = min(fs, key=lambda x: (x['impl'] != 0, x['call'], len(desc_tag(x['desc']))))
         script, ann = history_script(f['desc'], model, upto=f['call'])
         states = sorted({(x['sig'], x['impl'], x['spec']) for x in fs})[:16]
         ctx.violation('%s returns %d where the documented precedence gives %d (%d occurrences; states dflag:nflags:bits, impl, spec: %s)'
